@@ -282,3 +282,29 @@ func HarnessC08Tokens() {
 	vCover("parsed")
 	vAssert(prog != nil || p.HasErrors(), "program-or-error")
 }
+
+var c08Alphabet = []string{
+	"t", "{{ 1 }}", "{{ x = 1 }}", "@if(x)", "@elseif(y)", "@else", "@end", "@each(v in a)", "@for(i = 0; i < 1; i++)",
+	"@break", "@continueIf(x)", "@slot", "@slot(\"a\")", "@component(\"c\")", "@component(\"c\", {a: 1})", "@dump(1)",
+	"@insert(\"a\")", "@insert(\"a\", 1)", "@reserve(\"a\")", "@use(\"~l\")", "{{-- c --}}", "\\@if", "{{ ", ")", "(",
+}
+
+// HarnessC08Lexemes: every sequence of K lexemes from the lexeme alphabet, with one symbolic byte appended: parsing
+// returns a program or an error with a line, without panicking or hanging.
+func HarnessC08Lexemes() {
+	k := vParam("K")
+	src := ""
+	for i := 0; i < k; i++ {
+		src += c08Alphabet[vChoice("lexeme", len(c08Alphabet))]
+	}
+	b := vByte("tail")
+	vAssume(b != 0)
+	src += string([]byte{b})
+	prog, errs := parseStr(src)
+	vCover("returned")
+	if len(errs) == 0 {
+		vAssert(prog != nil, "program-or-error")
+	} else {
+		vAssert(errs[0].Line() >= 1, "error-has-line")
+	}
+}
